@@ -657,6 +657,73 @@ def _field_load_site(b, op, vadt, fidx, depth=0):
     return None
 
 
+def _view_steppers(env, vadt, P, L, nb, db):
+    """Private methods of the view that advance it — `fn advance(&mut self, n) -> *mut T { let p = self.ptr; self.ptr =
+    p.add(n); self.len -= n; p }` — judged once: {def: (ok, why)}. A stepper writes both fields exactly once, on every
+    path, ptr by `ptr + n` and len by `len - n` with n its parameter, returns the pointer as it was loaded *before* the
+    write, and is called only from `next` and `Drop::drop` of the view."""
+    F, ev = env.F, env.ev
+    out = {}
+    for b in F.non_test_bodies():
+        if F.impl_self_adt(b) != vadt or b.is_closure or (nb is not None and b.def_ == nb.def_) \
+                or (db is not None and b.def_ == db.def_):
+            continue
+        writes = []
+        for bj, blk in enumerate(b.blocks):
+            if blk["cleanup"]:
+                continue
+            for sj, s2 in enumerate(blk["stmts"]):
+                if s2["k"] == "assign" and s2["place"]["p"] and s2["place"]["p"][-1]["k"] == "field" \
+                        and s2["place"]["p"][-1].get("adt") == vadt:
+                    writes.append((bj, sj, s2))
+        if not writes:
+            continue
+        ctx = env.ctx(b, vadt, None)
+
+        def isf(t, idx):
+            t = unref(t)
+            return t[0] == "field" and t[2] == idx and len(t) > 4 and t[4] == vadt
+        ok, why = True, ""
+        if (b.info or {}).get("container") != "inherent" or (b.info or {}).get("exported"):
+            ok, why = False, "it is not a private method of the view"
+        callers = [cb for (cb, _bb) in all_callers(env, b.def_)]
+        if ok and any(not ((nb is not None and cb.def_ == nb.def_) or (db is not None and cb.def_ == db.def_)) for cb in callers):
+            ok, why = False, "it is called from outside next / drop"
+        n = ("param", 2)
+        wp = [w for w in writes if w[2]["place"]["p"][-1]["i"] == P]
+        wl = [w for w in writes if w[2]["place"]["p"][-1]["i"] == L]
+        if ok and (len(wp) != 1 or len(wl) != 1 or len(writes) != 2):
+            ok, why = False, "it does not write each of the two fields exactly once"
+        if ok:
+            vp = unref(ev.rvalue(ctx, wp[0][2]["rv"]))
+            vl = unref(ev.rvalue(ctx, wl[0][2]["rv"]))
+            if not (vp[0] == "call" and vp[1] == "ptr_add" and isf(vp[2][0], P) and unref(vp[2][1]) == n):
+                ok, why = False, "the pointer is not advanced by its parameter"
+            elif not (vl[0] == "bin" and vl[1] == "Sub" and isf(vl[2], L) and unref(vl[3]) == n):
+                ok, why = False, "the length is not decreased by its parameter"
+        if ok:
+            # both writes on every path
+            for (wb, _sj, _s2) in (wp[0], wl[0]):
+                rets_ = set(x for x in b.exits() if b.term(x)["k"] == "return") - {wb}
+                if wb != 0 and rets_ and b.paths_avoiding(0, rets_, {wb}):
+                    ok, why = False, "a field update can be skipped"
+        if ok:
+            # the returned pointer: the field as loaded before the write
+            rets = [d for d in b.defs().get(0, []) if not b.blocks[d[0]]["cleanup"]]
+            if len(rets) != 1 or rets[0][2] != "assign" or rets[0][3]["k"] != "use":
+                ok, why = False, "its result is not a plain value"
+            else:
+                ls = _field_load_site(b, rets[0][3]["op"], vadt, P)
+                if ls is None:
+                    ok, why = False, "it does not return the pointer field"
+                else:
+                    lb, lsi = ls
+                    if not ((lb == wp[0][0] and lsi < wp[0][1]) or (lb != wp[0][0] and b.dominates(lb, wp[0][0]))):
+                        ok, why = False, "it returns the pointer as it is after the step"
+        out[b.def_] = (ok, why, b)
+    return out
+
+
 def rule_view(env, shared):
     """OWN.view: an owning view {ptr, len} over reserved elements yields each element once and drops the rest:
     next reads *ptr only under len != 0 and then advances ptr by one and decrements len; len()/size_hint report len;
@@ -685,6 +752,41 @@ def rule_view(env, shared):
                                                                      "std::ptr::read") and not nb.blocks[bi]["cleanup"]]
             good = len(reads) == 1
             why = "" if good else "%d raw reads" % len(reads)
+            a_ = F.adts[vadt]
+            steppers = _view_steppers(env, vadt, P, L, nb, F.bodies.get(a_.get("drop_fn")))
+            scalls = [(bi, t, c) for bi, t, c in nb.calls() if not nb.blocks[bi]["cleanup"] and not c.indirect
+                      and F.resolve_callee(c, vadt, None) in steppers]
+            if good and scalls:
+                # the step is made by a stepper: `Some(self.advance(1).read())` under len != 0
+                bi, t = reads[0]
+                direct = any(s2["k"] == "assign" and s2["place"]["p"] and s2["place"]["p"][-1]["k"] == "field"
+                             and s2["place"]["p"][-1].get("adt") == vadt for blk in nb.blocks for s2 in blk["stmts"])
+                if len(scalls) != 1 or direct:
+                    good, why = False, "the view is advanced more than once per call"
+                else:
+                    sbi, st_, sc = scalls[0]
+                    sd = F.resolve_callee(sc, vadt, None)
+                    if not steppers[sd][0]:
+                        good, why = False, "the stepping helper is not a single step (%s)" % steppers[sd][1]
+                    elif unref(ev.operand(ctx, st_["args"][1])) != ("int", 1):
+                        good, why = False, "the view is not advanced by exactly one element"
+                    elif not any(f[0] == "ne" and len(f) == 3 and isf(f[1], L) and f[2] == ("int", 0)
+                                 for f in block_facts(ev, ctx, sbi)):
+                        good, why = False, "the view is advanced without the guard len != 0"
+                    else:
+                        # the pointer that is read is the one the stepper returned
+                        op = t["args"][0]
+                        src_l = op["place"]["l"] if op["k"] in ("copy", "move") and not op["place"]["p"] else None
+                        al = _alias_locals(nb, st_["dest"]["l"]) if src_l is not None else set()
+                        if src_l is None or src_l not in al:
+                            good, why = False, "the element is not read through the pointer the stepping helper released"
+                        elif bi != sbi and not nb.dominates(sbi, bi):
+                            good, why = False, "the read does not follow the step"
+                out.append(Ob("OWN.view", k, "ok" if good else "viol", nb.file_line(),
+                              "under len != 0 one element is released by the stepping helper (ptr + 1, len - 1) and read" if good
+                              else "next of the owning view %s is not a single guarded read followed by one step: %s — an element "
+                              "is yielded twice, skipped, or read past the reserved interval" % (nm, why), True))
+                good = None
             if good:
                 bi, t = reads[0]
                 src = ev.operand(ctx, t["args"][0])
@@ -730,7 +832,8 @@ def rule_view(env, shared):
                         fsw = block_facts(ev, ctx, wb)
                         if not any(f[0] == "ne" and len(f) == 3 and isf(f[1], L) and f[2] == ("int", 0) for f in fsw):
                             good, why = False, "the view is advanced without the guard len != 0"
-            out.append(Ob("OWN.view", k, "ok" if good else "viol", nb.file_line(),
+            if good is not None:
+              out.append(Ob("OWN.view", k, "ok" if good else "viol", nb.file_line(),
                           "reads *ptr under len != 0, then ptr += 1 and len -= 1 on every path" if good else
                           "next of the owning view %s is not a single guarded read followed by one step: %s — an element is "
                           "yielded twice, skipped, or read past the reserved interval" % (nm, why), True))
@@ -755,23 +858,68 @@ def rule_view(env, shared):
         db = F.bodies.get(a.get("drop_fn"))
         k = "OWN.view|%s|drop" % nm
         good = False
+        whyd = ""
         if db is not None:
             ctx = env.ctx(db, vadt, None)
+            steppers = _view_steppers(env, vadt, P, L, nb, db)
+            scalls = [(bi, t, c) for bi, t, c in db.calls() if not db.blocks[bi]["cleanup"] and not c.indirect
+                      and F.resolve_callee(c, vadt, None) in steppers]
             for bi, t, c in db.calls():
                 if c.key == "std::ptr::drop_in_place":
                     sl = unref(ev.operand(ctx, t["args"][0]))
                     if sl[0] == "call" and sl[1] == "slice_from_raw_parts" and isf(sl[2][0], P) and isf(sl[2][1], L):
                         good = True
+            if scalls:
+                # Drop releases all remaining elements through the stepper first: `let len = self.len; let first =
+                # self.advance(len); drop_in_place(slice(first, len))`. Fields behind `&mut self` are read flow-insensitively
+                # by the term engine, so the order is checked on the MIR: the count that is passed to the stepper and the length
+                # of the dropped slice are loaded from the field *before* the step, the slice starts at what the stepper returned.
+                good = False
+                if len(scalls) != 1:
+                    whyd = "the view is stepped more than once in Drop"
+                else:
+                    sbi, st_, sc = scalls[0]
+                    sd = F.resolve_callee(sc, vadt, None)
+                    if not steppers[sd][0]:
+                        whyd = "the stepping helper is not a single step (%s)" % steppers[sd][1]
+                    else:
+                        def before_step(op):
+                            ls = _field_load_site(db, op, vadt, L)
+                            if ls is None:
+                                return False
+                            lb, _lsi = ls
+                            return lb == sbi or db.dominates(lb, sbi)
+                        slc = [(bi, t) for bi, t, c in db.calls() if not db.blocks[bi]["cleanup"] and not c.indirect
+                               and c.key.endswith("slice_from_raw_parts_mut") or (not c.indirect and c.key.endswith("slice_from_raw_parts"))]
+                        dip = [(bi, t) for bi, t, c in db.calls() if not db.blocks[bi]["cleanup"] and c.key == "std::ptr::drop_in_place"]
+                        if len(slc) != 1 or len(dip) != 1:
+                            whyd = "Drop does not drop exactly one slice"
+                        elif not before_step(st_["args"][1]):
+                            whyd = "the number of elements released is not the length loaded before the step"
+                        elif not before_step(slc[0][1]["args"][1]):
+                            whyd = "the length of the dropped slice is read after the view was stepped (it is 0 by then)"
+                        else:
+                            op = slc[0][1]["args"][0]
+                            src_l = op["place"]["l"] if op["k"] in ("copy", "move") and not op["place"]["p"] else None
+                            if src_l is None or src_l not in _alias_locals(db, st_["dest"]["l"]):
+                                whyd = "the dropped slice does not start at the pointer the stepping helper released"
+                            elif not (db.dominates(sbi, slc[0][0]) and db.dominates(slc[0][0], dip[0][0])):
+                                whyd = "the slice is not dropped after the step on every path"
+                            else:
+                                good = True
         out.append(Ob("OWN.view", k, "ok" if good else "viol", db.file_line() if db else "-",
                       "Drop drops exactly the elements not yet yielded: [ptr, ptr+len)" if good else
                       "Drop of the view %s does not drop exactly [ptr, ptr+len): unconsumed elements of a chunk leak or are "
-                      "dropped twice" % nm, True))
+                      "dropped twice%s" % (nm, (" (" + whyd + ")") if whyd else ""), True))
         # other writers
         k = "OWN.view|%s|writers" % nm
         bad = None
+        okst = {d for d, v in _view_steppers(env, vadt, P, L, nb, db).items() if v[0]}
         for b in F.non_test_bodies():
             if nb is not None and b.def_ == nb.def_:
                 continue
+            if b.def_ in okst:
+                continue  # a private stepping helper, judged above and used by next / drop only
             for bj, blk in enumerate(b.blocks):
                 for s2 in blk["stmts"]:
                     if s2["k"] == "assign" and s2["place"]["p"] and s2["place"]["p"][-1]["k"] == "field" \
